@@ -74,3 +74,30 @@ prop(
     design_ref="5/C07",
     lemmas=True,
 )
+
+prop(
+    "C12",
+    ["contracts.c12_lifecycle"],
+    "proof",
+    "contract-based deductive verification of the sequential ingredients: lock ghost state on the exclusive wrapper, flag/event obligations on accept/_accept_services/shutdown",
+    "exclusivity of accept and release of the guard on EVERY exit path of the wrapped call (return, Exception, KeyboardInterrupt, any BaseException) are proved for all outcomes; the accept loop's flag/event protocol is proved per function. 'shutdown() returns within bounded time' is liveness across threads and is NOT decided here (stated in trusted_base)",
+    "trusted: pyvc's Python semantics; assumed contracts of threading.Lock/Event, trio.sleep; composition through asyncio/trio and all scheduling assumed",
+    trusted=["assumed: threading.Lock.acquire(blocking=False) atomically returns True iff free and then holds; release requires held",
+             "NOT DECIDED: shutdown()/accept() return within bounded time whatever the payloads are doing (liveness across threads)",
+             "representative arity: the exclusive wrapper is verified for 2 positional + 1 keyword argument; it forwards *args/**kwargs untouched"],
+    design_ref="5/C12",
+)
+
+CONC_NOTE = "per-link proofs; composition through asyncio/trio and all scheduling assumed"
+prop(
+    "C01",
+    ["contracts.runtime"],
+    "proof",
+    "contract-based deductive verification of the failure-conversion chain: outcome/effect-trace contracts per link (payload monitors, failure future, runner.run, meta runner, accept), every payload outcome and exception class symbolic",
+    "each link of the chain payload outcome -> recorded failure -> runner task -> gather -> RuntimeError out of run()/accept() is proved for ALL outcomes (any return value incl. falsy ones, any BaseException class); " + CONC_NOTE + "; 'never keeps running' needs the frameworks to terminate and is assumed",
+    "trusted: pyvc's Python semantics; assumed contracts of asyncio (Future, loop, gather, shield, run) and trio (run, nursery, from_thread) as listed in the evidence; thread interleavings not modelled",
+    trusted=["assumed library contracts: asyncio.Future.set_exception requires not done and not a StopIteration; await fut yields the stored outcome; call_soon_threadsafe runs the callback once on the loop thread",
+             "hypothesis: a payload is an arbitrary callable with an arbitrary outcome that does not touch the runner's own state",
+             "NOT COVERED: thread interleavings, several payloads failing at nearly the same time (first-wins is proved per future; which one wins is schedule), termination of the close loop"],
+    design_ref="5/C01",
+)
